@@ -136,6 +136,10 @@ pub fn finish(ctx: &Ctx, report: Report, meta: Meta) -> i32 {
     let mut replay_paths = vec![];
     let replay_dir = format!("{}/replays/{}", ctx.out_dir, ctx.prop);
     if !new_violations.is_empty() { let _ = std::fs::create_dir_all(&replay_dir); }
+    // a defect that produces very many signatures must not flood stdout / the disk: the 40 most frequent are written out
+    new_violations.sort_by(|a, b| b.count.cmp(&a.count).then(a.signature.cmp(&b.signature)));
+    let total_new = new_violations.len();
+    new_violations.truncate(40);
     for v in &new_violations {
         let path = format!("{}/{:016x}.json", replay_dir, crate::rng::fnv_str(&v.signature));
         let body = json!({
@@ -172,7 +176,7 @@ pub fn finish(ctx: &Ctx, report: Report, meta: Meta) -> i32 {
     let evidence = json!({
         "property_id": ctx.prop, "tier": ctx.tier.name(), "seed": ctx.seed as i64, "level": meta.level,
         "coverage": Value::Object(coverage), "assumptions": meta.assumptions,
-        "wall_s": (ctx.elapsed_s() * 100.0).round() / 100.0, "violations": new_violations.len(),
+        "wall_s": (ctx.elapsed_s() * 100.0).round() / 100.0, "violations": total_new,
     });
     if ctx.replay.is_none() {
         let dir = format!("{}/evidence", ctx.out_dir);
@@ -195,6 +199,7 @@ pub fn finish(ctx: &Ctx, report: Report, meta: Meta) -> i32 {
         let d: String = d.chars().take(600).collect();
         println!("  detail: {d}");
     }
+    if total_new > new_violations.len() { println!("  ... and {} more distinct violation signatures (not written out)", total_new - new_violations.len()); }
     if !new_violations.is_empty() { return 1; }
     if ctx.replay.is_some() { println!("REPLAY: no violation reproduced"); return 0; }
     if !unmet.is_empty() || report.fingerprints.len() < 2 {
